@@ -45,6 +45,8 @@ func c02Open(path, kind string) (*database.Database, error) {
 			database.NewCachedDatabase(db).UpdateDatabase(again.Commands)
 		}
 		return db, nil
+	case "notebook": // main file plus the personal notebook beside it (which repeats some of the main entries)
+		return database.LoadDatabaseWithPersonal(path, path+".personal.yml")
 	case "literal":
 		l, err := database.LoadDatabase(path)
 		if err != nil {
@@ -128,6 +130,19 @@ func engineDeterminism(ctx *Ctx) {
 			dbName = "shipped"
 		} else {
 			cmds = vlib.GenCommands(r, sp)
+			if ctx.G(d)%96 == 23 {
+				// a vocabulary of more than a hundred thousand distinct words (a large team database): whatever the suggestion
+				// code does differently for a large word set is reached only here
+				cmds = cmds[:0]
+				for i := 0; i < 21000+r.Intn(2000); i++ {
+					var ws []string
+					for k := 0; k < 5; k++ {
+						ws = append(ws, fmt.Sprintf("%s%d%c", vlib.RandWord(r), i, 'a'+rune(k)))
+					}
+					cmds = append(cmds, vlib.Cmd{Command: ws[0] + " --run", Description: strings.Join(ws[1:], " "), Keywords: []string{"bulk"}})
+				}
+				ctx.R.Path("db-huge-vocabulary", 1)
+			}
 			dbp = filepath.Join(ctx.Scratch, fmt.Sprintf("det%d.yml", d))
 			if err := vlib.WriteYAML(dbp, cmds); err != nil {
 				panic(err)
@@ -135,7 +150,25 @@ func engineDeterminism(ctx *Ctx) {
 		}
 		kind := "file"
 		if dbName != "shipped" {
-			kind = []string{"file", "file", "refreshed", "literal", "fallback", "file"}[d%6]
+			kind = []string{"file", "notebook", "refreshed", "literal", "fallback", "file"}[d%6]
+			if ctx.G(d)%5 == 2 {
+				kind = "notebook"
+			}
+		}
+		if kind == "notebook" {
+			// a notebook that repeats entries of the main file word for word (saved from a search result) and adds its own
+			var pers []vlib.Cmd
+			for i := 0; i < 1+r.Intn(4) && len(cmds) > 0; i++ {
+				pers = append(pers, cmds[r.Intn(len(cmds))])
+			}
+			pers = append(pers, vlib.GenCommands(r, vlib.DBSpec{N: 1 + r.Intn(4), TieHeavy: true})...)
+			if r.Intn(2) == 0 && len(pers) > 1 {
+				pers = append(pers, pers[0]) // and one of its own twice
+			}
+			if err := vlib.WriteYAML(dbp+".personal.yml", vlib.StripCaches(pers)); err != nil {
+				panic(err)
+			}
+			defer os.Remove(dbp + ".personal.yml")
 		}
 		dbName += "/" + kind
 		var db *database.Database
@@ -159,7 +192,14 @@ func engineDeterminism(ctx *Ctx) {
 			otherKind = "file" // a refreshed database holds the same content as a plainly loaded one: the answers must agree
 		}
 		job := c02Job{DBPath: dbp, Kind: otherKind}
-		for qi := 0; qi < nQ; qi++ {
+		nQd := nQ
+		reps, loads, procs := reps, loads, procs
+		if N > 15000 {
+			nQd, reps, loads, procs = 4, 4, 1, 1
+		} else if N > 2000 {
+			nQd, reps, loads, procs = 12, 6, 2, 2
+		}
+		for qi := 0; qi < nQd; qi++ {
 			q := vlib.GenQuery(r, words, 1+r.Intn(4), []int{0, 0, 1, 2}[r.Intn(4)])
 			if strings.HasPrefix(dbName, "shipped") && qi == 0 {
 				q = "disk usage"
